@@ -2,6 +2,7 @@ import Driver.C02
 import Driver.C20
 import Driver.C09
 import Driver.C10
+import Driver.C05
 open Driver
 
 def handle (line : String) : String :=
@@ -9,6 +10,7 @@ def handle (line : String) : String :=
   | "c02" :: args => c02 args
   | "c20" :: args => c20 args
   | "c09" :: args => c09 args
+  | "c05" :: args => c05 args
   | "c10" :: args => c10 args
   | "c12" :: args => c12 args
   | "c14" :: args => c10 args
